@@ -5,6 +5,7 @@ import KoordVerif.Proofs.C04ExtRace
 import KoordVerif.Proofs.C04ExtWire
 import KoordVerif.Proofs.C04ExtCreate
 import KoordVerif.Proofs.C04ExtGone
+import KoordVerif.Proofs.C04ExtPolicy
 /-
 C04 — gang scheduling is all-or-nothing across the whole gang group (property theorems).
 
@@ -74,6 +75,23 @@ counts (waiting, or waiting + bound under waiting-and-running).
    getOrCreate_split_counterexample   read-locked fast path + unchecked store: both goroutines miss, one Gang replaces
                                 the other: the pod is in no set of the cached gang, or the cached gang is never
                                 initialised; sequentially the two shapes agree
+ I. which match policy and which mode are in force (glue in the model: getMatchPolicy / resolvePolicy / normStrict and
+    the configured CoschedulingArgs.DefaultMatchPolicy `State.dflt`; Proofs/C04ExtPolicy.lean)
+   match_policy_annotation_before_alias   the annotation unless missing / empty, else its alias — never a default of its own
+   absent_policy_takes_configured_default / illegal_policy_takes_configured_default / declared_legal_policy_wins
+                                nothing (legal) declared => the policy the scheduler was CONFIGURED with
+   mode_nonstrict_only_when_spelled_exactly   NonStrict only for the exact spelling; every other value (missing, empty,
+                                garbage, strict / STRICT / nonstrict / NONSTRICT) is Strict
+   configured_default_never_changes / policy_legal_or_configured_default   over ANY history
+   undeclared_gangs_follow_configured_default   ANY history in which no object declares a legal policy: every initialised
+                                gang runs under the configured default
+   configured_default_governs_release   ... so under a configured only-waiting / waiting-and-running default a release
+                                needs every gang of the group at its minimum: no once-satisfied exemption, a lone
+                                replacement member of a bound gang waits
+   absent_read_as_once_satisfied_counterexample   a getter answering once-satisfied for "nothing declared" releases the
+                                lone replacement member with 1 < min 2 on an only-waiting scheduler
+   mode_spellings_reject_like_strict / mode_stored_as_written_counterexample   `strict` etc. reject the parked member
+                                like `Strict`; read as NonStrict the member keeps waiting
 -/
 namespace KoordVerif.C04
 
@@ -791,8 +809,8 @@ theorem setChild_split_sequentially_same (g : PodSets) (p : Pod) (n l : Bool) :
 
 /-- every shape of the groups annotation that does not name anybody — no annotation, the empty
     string, `null`, `[]`, an empty list, not JSON — makes the gang a gang group of its own -/
-theorem groups_empty_shapes_mean_self (g : Gang) (c : Cfg) (b : Bool) (h : c.gshape ≠ 4 ∨ c.group = []) :
-    (applyCfg g c b).group = [g.id] := by
+theorem groups_empty_shapes_mean_self (d : Nat) (g : Gang) (c : Cfg) (b : Bool) (h : c.gshape ≠ 4 ∨ c.group = []) :
+    (applyCfg d g c b).group = [g.id] := by
   have e : groupOrSelf g.id (parseGroups c.gshape c.group) = [g.id] := by
     unfold parseGroups
     split <;> simp_all [groupOrSelf]
@@ -800,8 +818,8 @@ theorem groups_empty_shapes_mean_self (g : Gang) (c : Cfg) (b : Bool) (h : c.gsh
   simp [sortNat, insSorted]
 
 /-- a non-empty JSON list is taken literally (sorted: util.GetGangGroupId sorts the gang's slice in place) -/
-theorem groups_list_taken_literally (g : Gang) (c : Cfg) (b : Bool) (h : c.gshape = 4) (hne : c.group ≠ []) :
-    (applyCfg g c b).group = sortNat c.group := by
+theorem groups_list_taken_literally (d : Nat) (g : Gang) (c : Cfg) (b : Bool) (h : c.gshape = 4) (hne : c.group ≠ []) :
+    (applyCfg d g c b).group = sortNat c.group := by
   have e : groupOrSelf g.id (parseGroups c.gshape c.group) = c.group := by
     rw [h]
     cases hc : c.group with
@@ -932,6 +950,133 @@ theorem getOrCreate_split_counterexample :
     cachedGang ((cStart raceProgs).run 2 raceSchedSeq) 0 = cachedGang ((cStart raceProgs).run 1 raceSchedSeq) 0 ∧
     cachedGang ((cStart raceProgs).run 1 raceSchedPodLost) 0 = some { oid := 0, init := true, children := [7], pending := [7] } := by
   unfold CConf.quiescent
+  decide
+
+/-! ## I. which match policy and which mode are in force -/
+
+/-- GetGangMatchPolicy: the match-policy annotation counts unless it is missing or empty; only then the alias annotation
+    is read — and nothing else: with both missing the answer is "" (token 3 / 5), never a policy of its own. -/
+theorem match_policy_annotation_before_alias (a b : Nat) :
+    (polEmpty a = false → getMatchPolicy a b = a) ∧ (polEmpty a = true → getMatchPolicy a b = b) := by
+  unfold getMatchPolicy
+  constructor <;> intro h <;> simp [h]
+
+/-- A gang whose objects declare NO match policy (annotation and alias missing or empty) gets the policy the scheduler
+    was CONFIGURED with (CoschedulingArgs.DefaultMatchPolicy), whatever that is — not the built-in once-satisfied. -/
+theorem absent_policy_takes_configured_default (d : Nat) (g : Gang) (c : Cfg) (b : Bool)
+    (h : polEmpty (getMatchPolicy c.policy c.palias) = true) : (applyCfg d g c b).policy = d := by
+  have h2 : 2 < getMatchPolicy c.policy c.palias := by
+    rcases (polEmpty_iff _).mp h with e | e <;> omega
+  exact resolvePolicy_not_legal d _ h2
+
+/-- ... and so does a gang that declares something that is none of the three policies -/
+theorem illegal_policy_takes_configured_default (d : Nat) (g : Gang) (c : Cfg) (b : Bool)
+    (h : 2 < getMatchPolicy c.policy c.palias) : (applyCfg d g c b).policy = d :=
+  resolvePolicy_not_legal d _ h
+
+/-- a legal declared policy wins over the configured default -/
+theorem declared_legal_policy_wins (d : Nat) (g : Gang) (c : Cfg) (b : Bool)
+    (h : getMatchPolicy c.policy c.palias ≤ 2) : (applyCfg d g c b).policy = getMatchPolicy c.policy c.palias :=
+  resolvePolicy_legal d _ h
+
+/-- the hypotheses are satisfiable: no annotation at all under a scheduler configured with only-waiting; an empty
+    annotation with a legal alias; an illegal annotation beats a legal alias (and falls to the default) -/
+example : (applyCfg 0 (newGang 0 0) { min := 2, policy := 3, mode := 2, group := [] } false).policy = 0 ∧
+    (applyCfg 0 (newGang 0 0) { min := 2, policy := 5, mode := 2, group := [], palias := 1 } false).policy = 1 ∧
+    (applyCfg 0 (newGang 0 0) { min := 2, policy := 4, mode := 2, group := [], palias := 1 } false).policy = 0 := by
+  decide
+
+/-- The mode annotation is compared EXACTLY: a gang is NonStrict only when the annotation is spelled `NonStrict`;
+    missing, empty, garbage, `strict` / `STRICT` and even `nonstrict` / `NONSTRICT` all mean Strict. -/
+theorem mode_nonstrict_only_when_spelled_exactly (d : Nat) (g : Gang) (c : Cfg) (b : Bool) :
+    (applyCfg d g c b).strict = false ↔ c.mode = 0 :=
+  normStrict_iff c.mode
+
+/-- the configured default is fixed at construction: no event or call changes it -/
+theorem configured_default_never_changes (d : Nat) (ops : List Op) : (run (initWith d) ops).dflt = d := by
+  rw [run_dflt]
+  rfl
+
+/-- After ANY history on a scheduler configured with default `d`, the policy of every initialised gang is one of the
+    three legal ones (then it was declared, or is `d`) or `d` itself. -/
+theorem policy_legal_or_configured_default (d : Nat) (ops : List Op) :
+    ∀ g ∈ (run (initWith d) ops).gangs, g.init = true → g.policy ≤ 2 ∨ g.policy = d := by
+  have h := polQ_run (Q := fun t => t ≤ 2 ∨ t = d) (initWith d) ops
+    (fun _ _ c _ => resolvePolicy_dom _ _) (fun g hg => by simp [initWith_gangs] at hg)
+  exact h
+
+/-- After ANY history in which no object declares a legal match policy, every initialised gang runs under the
+    CONFIGURED default. -/
+theorem undeclared_gangs_follow_configured_default (d : Nat) (ops : List Op) (hu : Undeclared ops) :
+    ∀ g ∈ (run (initWith d) ops).gangs, g.init = true → g.policy = d := by
+  have h := polQ_run (Q := fun t => t = d) (initWith d) ops
+    (fun op hop c hc => resolvePolicy_not_legal _ _ (hu op hop c hc)) (fun g hg => by simp [initWith_gangs] at hg)
+  exact h
+
+/-- The seeded miss, as a theorem.  Scheduler configured with only-waiting (d = 0) or waiting-and-running (d = 1), no
+    gang declares a policy: after ANY history, whenever Permit releases a pod, EVERY gang of its group holds its minimum
+    at that instant — there is no once-satisfied exemption, however many members were bound before. -/
+theorem configured_default_governs_release (d : Nat) (hd : d ≤ 1) (ops : List Op) (hu : Undeclared ops)
+    (p : Pod) (id : GangId) (g : Gang) (hg : findGang (run (initWith d) ops).gangs id = some g)
+    (hv : (permit (run (initWith d) ops) p id).2.verdict = 0) :
+    ∀ h ∈ g.group, ∃ gh, findGang (permit (run (initWith d) ops) p id).1.gangs h = some gh ∧
+      gh.policy = d ∧ gh.min ≤ (held gh : Int) := by
+  have hall := (permit_success_iff _ p id g hg).mp hv
+  have hinv : AllGang (PolQ (fun t => t = d)) (step (run (initWith d) ops) (.permit p id)).1.gangs :=
+    polQ_step _ _ (fun c hc => by simp [Op.cfgs] at hc) (undeclared_gangs_follow_configured_default d ops hu)
+  intro h hh
+  obtain ⟨gh, e, hval⟩ := (allValid_iff _ _).mp hall h hh
+  obtain ⟨hi, hm⟩ := (validForPermit_iff _ _).mp hval
+  have hp : gh.policy = d := hinv gh (mem_of_findGang e).1 hi
+  refine ⟨gh, e, hp, ?_⟩
+  rcases hm with hm | ⟨h0, h1, _⟩
+  · exact hm
+  · exfalso
+    rw [hp] at h0 h1
+    omega
+
+/-- two members of gang 0 (min 2, nothing declared) are released and bound, then a replacement member comes alone -/
+def replacementHistory (c : Cfg) : List Op :=
+  [.pgAdd 0 c, .podEvt 0 0 false none, .podEvt 1 0 false none, .permit 0 0, .permit 1 0, .postBind 0 0,
+   .postBind 1 0, .podEvt 2 0 false none]
+
+/-- non-vacuity of `configured_default_governs_release`, and what the configured default decides: on a scheduler
+    configured with only-waiting the lone replacement member WAITS; the first round was a release of both members. -/
+example : Undeclared (replacementHistory { min := 2, policy := 3, mode := 2, group := [], gshape := 0 }) ∧
+    (step (run (initWith 0) ((replacementHistory { min := 2, policy := 3, mode := 2, group := [], gshape := 0 }).take 4))
+      (.permit 1 0)).2 = { verdict := 0, allowed := [0] } ∧
+    (permit (run (initWith 0) (replacementHistory { min := 2, policy := 3, mode := 2, group := [], gshape := 0 })) 2 0).2.verdict
+      = 1 := by
+  refine ⟨?_, by decide, by decide⟩
+  intro op hop c hc
+  simp only [replacementHistory, List.mem_cons, List.mem_nil_iff, or_false] at hop
+  rcases hop with rfl | rfl | rfl | rfl | rfl | rfl | rfl | rfl <;> simp [Op.cfgs] at hc <;> subst hc <;> decide
+
+/-- If "nothing declared" were read as "once-satisfied declared" BEFORE the configured default is consulted (a getter
+    that answers the documented default instead of ""), the same history on the same only-waiting scheduler releases
+    the lone replacement member although its gang holds 1 < min 2. -/
+theorem absent_read_as_once_satisfied_counterexample :
+    let asDeclared : Cfg := { min := 2, policy := 2, mode := 2, group := [], gshape := 0 }
+    let r := permit (run (initWith 0) (replacementHistory asDeclared)) 2 0
+    r.2.verdict = 0 ∧ ∃ g, findGang r.1.gangs 0 = some g ∧ g.min = 2 ∧ g.ps.waiting = [2] := by
+  decide
+
+/-- member 0 of a gang (min 2) whose mode annotation is `c.mode` parks at Permit, member 1 finds no node -/
+def strictFailureHistory (mode : Nat) : List Op :=
+  [.pgAdd 0 { min := 2, policy := 0, mode := mode, group := [], gshape := 0 }, .podEvt 0 0 false none,
+   .podEvt 1 0 false none, .permit 0 0]
+
+/-- `strict`, `STRICT` (token 5), `nonstrict` (6), garbage (3), "" (4) and no annotation (2): the parked member is
+    rejected when another member fails, exactly as for `Strict` (1) -/
+theorem mode_spellings_reject_like_strict :
+    ∀ m ∈ [1, 2, 3, 4, 5, 6], (step (run init (strictFailureHistory m)) (.postFilter 1 0)).2.rejected = [0] := by
+  decide
+
+/-- Were the legality test case-insensitive while the stored value stays as written (so that `== Strict` fails
+    later), a gang spelled `strict` would behave as the exact `NonStrict` does: the parked member keeps waiting. -/
+theorem mode_stored_as_written_counterexample :
+    (step (run init (strictFailureHistory 0)) (.postFilter 1 0)).2.rejected = [] ∧
+    (step (run init (strictFailureHistory 0)) (.postFilter 1 0)).1.fw = [(0, 0)] := by
   decide
 
 end KoordVerif.C04
